@@ -289,12 +289,12 @@ pub fn close_position(
                 },
             )?;
 
-            swap_input(
+            // exchange the base amount itself so that exactly the configured fraction is closed
+            swap_output(
                 &position.vamm,
-                side,
-                partial_close_notional,
+                direction_to_side(position.direction.clone()),
+                partial_close_amount,
                 Uint128::zero(),
-                true,
                 PARTIAL_CLOSE_POSITION_REPLY_ID,
             )?
         } else {
